@@ -219,7 +219,7 @@ func (g *G) Value(t cty.Type) cty.Value {
 func Lit(v cty.Value) string {
 	t := v.Type()
 	switch {
-	case v.IsNull():
+	case v.IsNull() || !v.IsKnown(): // an unknown value (LiteralValue of an odd schema) cannot be written
 		return "null"
 	case t == cty.String:
 		return quote(v.AsString())
